@@ -81,6 +81,81 @@ def mixed_stack(rng, arch, os_, depth):
     return case, exp
 
 
+WIN_PROGRAM_KEEP_EBP = "$T0 .raSearchStart = $eip $T0 ^ = $esp $T0 4 + = $ebp $ebp ="
+
+
+def win_recursion_stack(rng, depth):
+    """x86 thread, every function described by ONE STACK WIN record (FPO type 0, or frame data type 4), some functions
+    covered by STACK WIN only (no FUNC/PUBLIC record: StackFrame::parameter_size stays None, such functions take no stack
+    parameters), with DIRECT RECURSION FROM A SINGLE CALL SITE: `depth` >= 3 activations of one function whose return
+    addresses are all the same address, so the word at esp+frame_size of an activation equals that activation's own eip.
+    The leftover-return-address heuristic of FPO unwinding applies to the context frame only; every caller must come out
+    by the plain formula.  Layout per frame as win_stack: [arguments pushed for the callee][locals][saved regs][return address].
+    Returns (case line, expected callers)."""
+    A = ARCH[0]
+    mb = 0x40000000
+    base = 0x80000000
+    n_inner = rng.choice([1, 1, 2])            # frames below the recursion (context frame first)
+    n_outer = rng.choice([0, 1, 2])            # frames above it
+    kinds = ["fpo", "fpo", "fd", "fpo_bp"]
+
+    def mkfun(i):
+        kind = rng.choice(kinds)
+        saved = rng.choice([8, 12]) if kind == "fpo_bp" else rng.choice([0, 4, 8])
+        has_func = rng.chance(1, 2)
+        return dict(off=0x1000 + 0x200 * i, kind=kind, saved=saved, locals=4 * rng.range(0 if saved else 1, 6),
+                    has_func=has_func, params=rng.choice([0, 4, 8, 12]) if has_func else 0, fpsize=rng.choice([0, 4, 8]))
+    inner = [mkfun(i) for i in range(n_inner)]
+    rec = mkfun(n_inner)
+    if rng.chance(2, 3):
+        rec["has_func"], rec["params"] = False, 0       # the recursing function is STACK WIN-only
+    if rng.chance(2, 3):
+        rec["kind"] = rng.choice(["fpo", "fpo", "fpo_bp"])
+        if rec["kind"] == "fpo_bp" and rec["saved"] < 8:
+            rec["saved"] = 8
+    outer = [mkfun(n_inner + 1 + i) for i in range(n_outer)]
+    acts = inner + [rec] * depth + outer               # one entry per frame, innermost first
+    rr = mb + rec["off"] + 0x50                        # THE call site's return address inside the recursing function
+    site = lambda f: mb + f["off"] + 0x10 + 4 * rng.below(12)
+    decoys = [rr, mb + rec["off"] + 0x20, base + 4 * rng.below(64), 0x11110000 + rng.below(100)] + [mb + f["off"] + 0x30 for f in inner + outer]
+    data, exp = [], []
+    sp = base
+    for i, f in enumerate(acts):
+        gcps = acts[i - 1]["params"] if i > 0 else 0
+        fsize = gcps + f["locals"] + f["saved"]
+        if i + 1 >= len(acts):
+            ra = 0
+        elif acts[i + 1] is rec:
+            # into the recursing function: its single recursive call site, or (from an inner function, sometimes) another site
+            ra = rr if (f is rec or rng.chance(1, 2)) else site(rec)
+        else:
+            ra = site(acts[i + 1])
+        for _ in range(fsize // 4):
+            data += le_bytes(rng.choice(decoys), 4)
+        data += le_bytes(ra, 4)
+        sp += fsize + 4
+        if ra:
+            exp.append(dict(instr=ra - 1, resume=ra, sp=sp, trust="cfi"))
+    data += le_bytes(0, 4) * 2
+    lines, seen = [], set()
+    for f in acts:
+        if f["off"] in seen:
+            continue
+        seen.add(f["off"])
+        if f["has_func"]:
+            lines.append("FUNC %x 100 %x f%x" % (f["off"], f["fpsize"], f["off"]))
+        if f["kind"] == "fd":
+            lines.append("STACK WIN 4 %x 100 0 0 %x %x %x 0 1 %s" % (f["off"], f["params"], f["saved"], f["locals"], WIN_PROGRAM_KEEP_EBP))
+        else:
+            lines.append("STACK WIN 0 %x 100 0 0 %x %x %x 0 0 %d" % (f["off"], f["params"], f["saved"], f["locals"],
+                                                                     1 if f["kind"] == "fpo_bp" else 0))
+    sym_t = "T|" + "|".join(l.replace(" ", "~") for l in lines)
+    gp = [rng.choice([0x0b0b0b0b, 0, mb + 0x1234])] + [0] * (A["ngp"] - 1)
+    ip0 = mb + acts[0]["off"] + 0x14 + 4 * rng.below(8)
+    case = fmt_case(0, rng.choice([1, 1, 0]), ip0, base, rng.choice([0, base + 64]), 0, gp, "*", base, data, [(mb, 0x10000, sym_t)])
+    return case, exp
+
+
 def c04_oracle(case, ans):
     bad = c05_oracle(case, ans)
     if bad:
@@ -249,6 +324,11 @@ class C04(PropBase):
             case, exp = win_stack(rng, rng.choice([3, 4, 4, 5, 6, 8, 12, 20, 40]))
             cases.append(case + " " + fmt_exp(exp))
         dist["stack_win_x86"] = n_d
+        n_e = 600 if tier == "quick" else 6000
+        for _ in range(n_e):
+            case, exp = win_recursion_stack(rng, rng.choice([3, 3, 4, 5, 8, 16]))
+            cases.append(case + " " + fmt_exp(exp))
+        dist["stack_win_x86_recursion"] = n_e
         return cases, dist, False
 
 
